@@ -267,21 +267,21 @@ impl Store {
         // hand-off point: every frame appended before it has a smaller id and is left to the
         // historical scan, every frame appended after it has a larger id and arrives through
         // the subscription. Each frame is delivered by exactly one of the two, in id order.
+        // under a simulation a reader that would block on the append lock parks at a sync
+        // point until the lock is free (the lock below then never blocks)
+        #[cfg(xs_verif)]
+        if should_follow {
+            crate::verif::wait_unlocked(&self.append_lock, "read.lockwait").await;
+        }
         let (broadcast_rx, handoff_id) = if should_follow {
-            #[cfg(not(xs_verif))]
             let _append_guard = self.append_lock.lock().unwrap();
-            // same lock; under a simulation a reader that would block parks at a sync point
-            #[cfg(xs_verif)]
-            let _append_guard =
-                crate::verif::lock_parking(&self.append_lock, "read.lockwait").await;
-            #[cfg(not(xs_verif))]
-            let handoff_id = scru128::new();
-            #[cfg(xs_verif)]
-            let handoff_id = crate::verif::new_id().unwrap_or_else(scru128::new);
-            (Some(self.broadcast_tx.subscribe()), Some(handoff_id))
+            (Some(self.broadcast_tx.subscribe()), Some(scru128::new()))
         } else {
             (None, None)
         };
+        // under a simulation the hand-off id comes from the simulated id source
+        #[cfg(xs_verif)]
+        let handoff_id = handoff_id.map(|id| crate::verif::new_id().unwrap_or(id));
 
         #[cfg(xs_verif)]
         let verif_read_id = crate::verif::seq("read") as u128;
